@@ -108,7 +108,7 @@ type bitsEnv struct {
 	p      *Prog
 	known  map[ssa.Value]bvec
 	table  func(g *ssa.Global) ([]uint64, bool) // constant linear tables
-	why    string                             // reason of the last failure
+	why    string                               // reason of the last failure
 	inline int
 }
 
